@@ -775,4 +775,28 @@ pub fn run_pairs(_tier: &str, _seed: u64, out: &mut Out) {
             }
         }
     }
+    // what a file renders does not depend on its own name: the same importer under names that sort before and after the
+    // imported file, and a pair of files importing each other
+    let importer = "<import src=\"/lib/cards\"/><template name=\"own\">own {{ x }}</template><template is=\"card\" data=\"{{ x: a }}\"/><template is=\"{{ s }}\" data=\"{{ x: b }}\"/><template is=\"own\" data=\"{{ x: a }}\"/>";
+    let lib = "<import src=\"/zz/back\"/><template name=\"card\">card {{ x }}</template><template name=\"dyn\">dyn {{ x }}</template><template name=\"own\">lib-own</template>";
+    let back = "<import src=\"/lib/cards\"/><template name=\"back\">back</template>";
+    let names = ["app", "lib/a", "lib/zz", "main", "zz/top"];
+    for (k, na) in names.iter().enumerate() {
+        let nb = names[(k + 1) % names.len()];
+        let mk = |name: &str| -> (String, u8) {
+            let mut g = TmplGroup::new();
+            let d = { crate::util::note_input(importer); g.add_tmpl(name, importer) };
+            g.add_tmpl("lib/cards", lib);
+            g.add_tmpl("zz/back", back);
+            (g.get_tmpl_gen_object_groups().unwrap_or_default(), d.iter().map(|d| d.kind.level() as u8).max().unwrap_or(0))
+        };
+        let (ba, la) = mk(na);
+        let (bb, lb) = mk(nb);
+        for d in datas.iter() {
+            let job = json!({"kind": "pair", "id": id, "a": format!("[file {}] {}", na, importer), "b": format!("[file {}] {}", nb, importer),
+                             "level_a": la, "level_b": lb, "bundle_a": ba, "bundle_b": bb, "path_a": na, "path_b": nb, "data": d});
+            out.raw(&job.to_string());
+            id += 1;
+        }
+    }
 }
